@@ -43,6 +43,11 @@ type benv struct {
 	sites int
 	known map[string]bool // translated functions (by Coq name)
 	mutators map[string]bool // those that return their receiver's final value
+	// methods of a struct whose byte-slice / integer fields are threaded as state (the client)
+	recvName string            // receiver identifier, "" when not a state method
+	fields   []string          // state fields in order
+	fkinds   map[string]string // their kinds
+	extern   map[string]bex    // external calls (selector text -> term), e.g. c.sc.Scan()
 }
 
 func (e *benv) bad(n ast.Node, why string) string {
@@ -202,6 +207,16 @@ func (e *benv) expr(n ast.Expr) bex {
 			return bex{g, true}
 		}
 		return bex{e.bad(n, "unknown identifier "+v.Name), false}
+	case *ast.SelectorExpr:
+		if id, ok := v.X.(*ast.Ident); ok && e.recvName != "" && id.Name == e.recvName {
+			if g, ok := e.vars[e.recvName+"."+v.Sel.Name]; ok {
+				return bex{g, true}
+			}
+		}
+		if pkg, ok := v.X.(*ast.Ident); ok && pkg.Name == "io" && v.Sel.Name == "EOF" {
+			return bex{"(Some (-1))", true}
+		}
+		return bex{e.bad(n, "unsupported selector"), false}
 	case *ast.UnaryExpr:
 		x := e.expr(v.X)
 		switch v.Op {
@@ -239,6 +254,14 @@ func (e *benv) expr(n ast.Expr) bex {
 					}
 					return "(negb (Bool.eqb " + s[0] + " " + s[1] + "))"
 				})
+			}
+			if id, ok := v.X.(*ast.Ident); ok && e.extern != nil {
+				if md, ok := e.vars[id.Name]; ok && strings.HasPrefix(md, "md_") {
+					if v.Op == token.EQL {
+						return bex{"(md_is_nil " + md + ")", true}
+					}
+					return bex{"(negb (md_is_nil " + md + "))", true}
+				}
 			}
 			if lk == "error" || lk == "nil" {
 				// err != nil / err == nil
@@ -376,6 +399,21 @@ func (e *benv) expr(n ast.Expr) bex {
 			a := e.expr(v.Args[0])
 			return e.combine([]bex{a}, func(s []string) string { return "(g_len " + s[0] + ")" })
 		}
+		if e.extern != nil {
+			if t, ok := e.extern[exprText(v)]; ok {
+				return t
+			}
+			// data.UnmarshalMTData2Packet(x) on the value MeasurementData() returned
+			if sel, ok := v.Fun.(*ast.SelectorExpr); ok && sel.Sel.Name == "UnmarshalMTData2Packet" && len(v.Args) == 1 {
+				if id, ok := sel.X.(*ast.Ident); ok {
+					if md, ok := e.vars[id.Name]; ok && strings.HasPrefix(md, "md_") {
+						a := e.expr(v.Args[0])
+						return e.combine([]bex{a}, func(s []string) string { return "(md_unmarshal " + md + " " + s[0] + ")" })
+					}
+				}
+			}
+			// methods of the receiver itself that are translated (c.MessageIdentifier())
+		}
 		if sel, ok := v.Fun.(*ast.SelectorExpr); ok {
 			full := ""
 			if obj := e.x.info.Uses[sel.Sel]; obj != nil {
@@ -407,6 +445,13 @@ func (e *benv) expr(n ast.Expr) bex {
 				}
 				e.sites++
 				site := e.sites
+				// %w of an error value: the cause is what callers can observe; keep it
+				for i, arg := range v.Args {
+					if bkind(e.x.info.Types[arg].Type) == "error" && i > 0 {
+						c := e.expr(arg)
+						return c
+					}
+				}
 				return e.combine(ops, func([]string) string { return fmt.Sprintf("(Some %d)", site) })
 			}
 			if bkind(e.x.info.TypeOf(sel.X)) == "dataid" && sel.Sel.Name == "Uint16" && len(v.Args) == 0 {
@@ -480,7 +525,7 @@ func (e *benv) block(stmts []ast.Stmt, ret func([]ast.Expr) string, cont func() 
 	}
 	rest := func() string { return e.block(stmts[1:], ret, cont) }
 	bindv := func(name string, val bex) string {
-		g := "v_" + name
+		g := "v_" + strings.ReplaceAll(name, ".", "_")
 		saved, had := e.vars[name]
 		e.vars[name] = g
 		var out string
@@ -617,6 +662,37 @@ func (e *benv) block(stmts []ast.Stmt, ret func([]ast.Expr) string, cont func() 
 		}
 		return e.bad(s, "unsupported call statement")
 	case *ast.AssignStmt:
+		if len(s.Lhs) == 2 && len(s.Rhs) == 1 && s.Tok == token.DEFINE {
+			// a, b := f(...) for a translated function returning a pair
+			a, okA := s.Lhs[0].(*ast.Ident)
+			b, okB := s.Lhs[1].(*ast.Ident)
+			if !okA || !okB {
+				return e.bad(s, "unsupported assignment")
+			}
+			rhs := e.expr(s.Rhs[0])
+			ga, gb := "v_"+a.Name, "v_"+b.Name
+			sa, ha := e.vars[a.Name]
+			sb, hb := e.vars[b.Name]
+			e.vars[a.Name], e.vars[b.Name] = ga, gb
+			var out string
+			if rhs.pure {
+				out = "(let '(" + ga + ", " + gb + ") := " + rhs.t + " in " + rest() + ")"
+			} else {
+				t := e.tmp()
+				out = "(do " + t + " <- " + rhs.t + "; let '(" + ga + ", " + gb + ") := " + t + " in " + rest() + ")"
+			}
+			if ha {
+				e.vars[a.Name] = sa
+			} else {
+				delete(e.vars, a.Name)
+			}
+			if hb {
+				e.vars[b.Name] = sb
+			} else {
+				delete(e.vars, b.Name)
+			}
+			return out
+		}
 		if len(s.Lhs) != 1 || len(s.Rhs) != 1 {
 			return e.bad(s, "unsupported assignment")
 		}
@@ -633,9 +709,43 @@ func (e *benv) block(stmts []ast.Stmt, ret func([]ast.Expr) string, cont func() 
 			i, v := e.expr(ix.Index), e.expr(s.Rhs[0])
 			return bindv(xid.Name, e.flatten(e.combine([]bex{i, v}, func(a []string) string { return "(g_set " + cur + " " + a[0] + " " + a[1] + ")" })))
 		}
+		if sel, ok := s.Lhs[0].(*ast.SelectorExpr); ok && e.recvName != "" {
+			// c.X = e / c.X += e on a state field
+			if rid, ok := sel.X.(*ast.Ident); ok && rid.Name == e.recvName {
+				key := e.recvName + "." + sel.Sel.Name
+				cur, known := e.vars[key]
+				if !known {
+					return e.bad(s, "assignment to an unknown field "+sel.Sel.Name)
+				}
+				rhs := e.expr(s.Rhs[0])
+				if rhs.t == "NIL" {
+					rhs = bex{"[]", true}
+				}
+				switch s.Tok {
+				case token.ASSIGN:
+					return bindv(key, rhs)
+				case token.ADD_ASSIGN:
+					t := e.x.info.TypeOf(s.Lhs[0])
+					return bindv(key, e.combine([]bex{rhs}, func(a []string) string { return e.intWrap(t, "("+cur+" + "+a[0]+")") }))
+				}
+				return e.bad(s, "unsupported field assignment")
+			}
+		}
 		id, ok := s.Lhs[0].(*ast.Ident)
 		if !ok {
 			return e.bad(s, "assignment to a non-variable")
+		}
+		// data := c.MeasurementData(): an opaque value determined by the current packet
+		if call, ok := s.Rhs[0].(*ast.CallExpr); ok && e.extern != nil && exprText(call) == e.recvName+".MeasurementData()" {
+			saved, had := e.vars[id.Name]
+			e.vars[id.Name] = "md_" + id.Name
+			out := "(let md_" + id.Name + " := " + e.vars[e.recvName+".mtData2Packet"] + " in " + rest() + ")"
+			if had {
+				e.vars[id.Name] = saved
+			} else {
+				delete(e.vars, id.Name)
+			}
+			return out
 		}
 		rhs := e.expr(s.Rhs[0])
 		if rhs.t == "NIL" {
@@ -900,4 +1010,94 @@ func (x *xl) findFunc(recv, name string) *ast.FuncDecl {
 		}
 	}
 	return nil
+}
+
+// exprText renders a call or selector chain as source text (used to recognise external calls such as c.sc.Scan()).
+func exprText(n ast.Expr) string {
+	switch v := n.(type) {
+	case *ast.Ident:
+		return v.Name
+	case *ast.SelectorExpr:
+		return exprText(v.X) + "." + v.Sel.Name
+	case *ast.CallExpr:
+		args := make([]string, len(v.Args))
+		for i, a := range v.Args {
+			args[i] = exprText(a)
+		}
+		return exprText(v.Fun) + "(" + strings.Join(args, ", ") + ")"
+	}
+	return "?"
+}
+
+// clientFns renders the stateful core of the client: Receive and ScanMeasurementData.  The struct fields they use are
+// threaded as state; the scanner, and the value MeasurementData() returns, are parameters.
+func (x *xl) clientFns(w *bytes.Buffer) {
+	w.WriteString("(* GENERATED by go/xlate (bytesfn.go) from client.go: Client.Receive and Client.ScanMeasurementData, statement by\n   statement.  State = (message, mtData2, mtData2Packet, nextPacketIndex); the bufio.Scanner calls are the parameters\n   sc_scan / sc_bytes / sc_err (their values for this call), the value returned by MeasurementData() is represented by\n   the packet it was computed from (md_is_nil / md_unmarshal are parameters).  Do not edit. *)\n")
+	w.WriteString("From Coq Require Import ZArith NArith List Bool.\nRequire Import XS.Base.Bytes XS.Base.GoInt XS.Base.GoBytes XS.Gen.Funcs XS.Gen.Bytes.\nImport ListNotations.\nOpen Scope Z_scope.\n\n")
+	w.WriteString("Definition gstate := (bytes * bytes * bytes * Z)%type.\n\n")
+	fields := []string{"message", "mtData2", "mtData2Packet", "nextPacketIndex"}
+	fk := map[string]string{"message": "bytes", "mtData2": "bytes", "mtData2Packet": "bytes", "nextPacketIndex": "int"}
+	known := map[string]bool{}
+	for _, sp := range bytesFuncs {
+		known[bfnName(sp.recv, sp.name)] = true
+	}
+	for _, name := range []string{"Receive", "ScanMeasurementData"} {
+		item := "client method " + name
+		fd := x.findFunc("Client", name)
+		coqName := "g_Client_" + name
+		if fd == nil || fd.Recv == nil || len(fd.Recv.List[0].Names) != 1 {
+			x.fail(item, "not found")
+			continue
+		}
+		recv := fd.Recv.List[0].Names[0].Name
+		e := &benv{x: x, item: item, ok: true, vars: map[string]string{}, known: known, mutators: map[string]bool{},
+			recvName: recv, fields: fields, fkinds: fk}
+		for _, f := range fields {
+			e.vars[recv+"."+f] = "s_" + f
+		}
+		e.extern = map[string]bex{
+			recv + ".sc.Scan()":  {"sc_scan", true},
+			recv + ".sc.Err()":   {"sc_err", true},
+			recv + ".sc.Bytes()": {"sc_bytes", true},
+		}
+		var rkinds []string
+		if fd.Type.Results != nil {
+			for _, f := range fd.Type.Results.List {
+				rkinds = append(rkinds, bkind(x.info.TypeOf(f.Type)))
+			}
+		}
+		state := func() string {
+			parts := make([]string, len(fields))
+			for i, f := range fields {
+				parts[i] = e.vars[recv+"."+f]
+			}
+			return "(" + strings.Join(parts, ", ") + ")"
+		}
+		ret := func(results []ast.Expr) string {
+			var ops []bex
+			for i, r := range results {
+				b := e.expr(r)
+				if b.t == "NIL" && i < len(rkinds) && rkinds[i] == "error" {
+					b = bex{"None", true}
+				}
+				ops = append(ops, b)
+			}
+			st := state()
+			c := e.combine(ops, func(a []string) string { return "(" + strings.Join(append(a, st), ", ") + ")" })
+			return c.monadic()
+		}
+		body := e.block(fd.Body.List, ret, nil)
+		if !e.ok {
+			body = "Pan"
+		}
+		rt := make([]string, len(rkinds))
+		for i, k := range rkinds {
+			rt[i] = coqKind(k)
+		}
+		params := "(sc_scan : bool) (sc_bytes : bytes) (sc_err : option Z)"
+		if name == "ScanMeasurementData" {
+			params = "(md_is_nil : bytes -> bool) (md_unmarshal : bytes -> bytes -> option Z)"
+		}
+		fmt.Fprintf(w, "Definition %s %s (st : gstate) : R (%s * gstate) :=\n  let '(s_message, s_mtData2, s_mtData2Packet, s_nextPacketIndex) := st in\n  %s.\n\n", coqName, params, strings.Join(rt, " * "), body)
+	}
 }
